@@ -23,6 +23,7 @@ EVID = os.environ.get("VERIF_EVIDENCE_DIR") or os.path.join(VERIF, "evidence")
 GOENV = dict(GOFLAGS="-mod=mod", GOPROXY="off", GOSUMDB="off", GOTOOLCHAIN="local",
              CGO_ENABLED="0")
 SHARD = 250
+DEADLINE = None   # wall-clock budget of one run: shrinking and the failing-input search stop when it is exceeded
 FORBIDDEN = re.compile(
     r"\b(Admitted|admit|Axiom|Axioms|Parameter|Parameters|Conjecture|Conjectures|"
     r"Admit\s+Obligations|bypass_check|native_compute)\b|Unset\s+Guard|Unset\s+Positivity|"
@@ -385,11 +386,13 @@ def main(argv):
     tier = "thorough" if a.tier == "thorough" else "quick"
     seed = a.seed if a.seed is not None else int(os.environ.get("VERIF_SEED") or 1)
     pid = a.pid
+    global DEADLINE
+    DEADLINE = time.time() + float(os.environ.get("VERIF_BUDGET_S") or (900 if tier == "quick" else 3600))
     if a.replay:
         a.replay = os.path.abspath(a.replay)
     t0 = time.time()
     pl = load_plugin(pid)
-    rundir = os.path.join(RUN, pid + ("_replay" if a.replay else ""))
+    rundir = os.path.join(RUN, pid + ("_replay" if a.replay else "") + ("_" + os.environ["VERIF_RUN_TAG"] if os.environ.get("VERIF_RUN_TAG") else ""))
     shutil.rmtree(rundir, ignore_errors=True)
     os.makedirs(rundir)
     evpath = os.path.join(EVID, pid + ".json")
@@ -517,7 +520,7 @@ def main(argv):
             continue
         seen_sig.add(sig)
         shown += 1
-        c2 = shrink(pl, c, rundir, seed, tier, kf_open) if hasattr(pl, "shrink_candidates") else c
+        c2 = shrink(pl, c, rundir, seed, tier, kf_open) if (hasattr(pl, "shrink_candidates") and time.time() < DEADLINE) else c
         report("prop", dict(property=pid, kind="property fails on the implementation's own observables",
                             cases=[dict(id=c2.get("id"), grp=c2["grp"], **{"in": c2["in"]})],
                             observed=c2.get("obs"), corr_with_model=r["corr"],
@@ -545,6 +548,9 @@ def main(argv):
         searched = 0
         if eval_ok and not errors:
             for k in range(1, 4 if tier == "quick" else 9):
+                if time.time() > DEADLINE:
+                    notes.append("failing-input search stopped: run budget exhausted")
+                    break
                 scs = []
                 for h in hs:
                     _, rc_, out_, dt_, cs = do_h(h, seed * 1000 + k, n_req, "adv", None, "_s%d" % k)
@@ -647,8 +653,8 @@ def shrink(pl, c, rundir, seed, tier, kf_open, budget=40):
         improved = False
         for cand_in in pl.shrink_candidates(cur["in"], cur["grp"]):
             tries += 1
-            if tries > budget:
-                break
+            if tries > budget or (DEADLINE and time.time() > DEADLINE):
+                return cur
             rp = os.path.join(rundir, "shrink_in.json")
             write_json(rp, [dict(id="shrink", grp=cur["grp"], **{"in": cand_in})])
             h = [h for h in pl.HARNESSES if cur["grp"] in h.get("groups", [cur["grp"]])][0]
